@@ -42,6 +42,8 @@ func init() {
 			{ID: "C20.R19", Text: "no layer in front of an implementation changes what it answers: every type of the module that implements one of the module's interfaces and holds a value of it (a decorator: read-only metadata today) hands each call on exactly — one inner call with its own arguments on every path, results untouched — except the methods that are opaque by design (frozen table)", Run: decoratorsTransparent()},
 			{ID: "C20.R20", Text: "what is installed is what was handed in: nowhere in the module is a collaborator (a value of interface or function type) replaced by a wrapper around it — a function from T to T, or a method value of an object built from it — except the known read-only metadata wrapper", Run: noNewLayers},
 			{ID: "C20.R21", Text: "a completion neither blocks nor panics: every integer division or modulo by something other than a non-zero constant runs only where that divisor was tested non-zero (frozen exception: the chunking helper, whose divisor is the group size)", Run: noUnguardedDivision},
+			{ID: "C20.R22", Text: "a completion handler does not panic: the channel closes of the module are inside a sync.Once body or among the confirmed ones (frozen table: the stream stop channel)", Run: channelClosesKnown},
+			{ID: "C20.R23", Text: "a completion handler does not stall the read loop: the gate of the observer waits for the persistence condition only — no channel receive, lock or other wait", Run: gateWaitsOnlyForPersistence},
 			{ID: "C20.R4", Text: "a deadline exists for every operation (own deadline from time.Now, or a deadline-bearing context at every call site)", Run: c20r4},
 		},
 	})
